@@ -106,7 +106,9 @@ def judge(ctx, cases, tag, width=64, require_defined=False):
         bad = bad[:MAX_CONFIRM]
     if bad:
         # flake guard: every rejection is reproduced once more, four at a time, before it counts
-        again = [{k: v for k, v in c.items() if k not in ("obs", "src", "script")} for c in bad]
+        # the cases as they were handed in (a case of spec/FamSyn.tla carries its own source text, which must be what is run again)
+        orig = {c["id"]: c for c in cases}
+        again = [{k: v for k, v in orig[c["id"]].items() if k not in ("obs", "script")} for c in bad]
         res2 = validate_again(ctx, again, tag + "-confirm", width)
         for c in bad:
             c2, v2 = res2[c["id"]]
@@ -170,3 +172,8 @@ def hist_cases(ctx, part=None):
     breaks / continues, six-iteration loops (ids hist/<calls|loops|loopsfn|iter>/...)"""
     fam = ctx.tlc_family("FamHist", constants={"Tier": '"%s"' % ctx.tier}, timeout=3000)
     return [c for c in fam if part is None or c["id"].split("/")[1] in part]
+
+
+def syn_cases(ctx, prop):
+    """spec/FamSyn.tla: legal spellings the renderer never produces (the case carries the source text to run and the program it must mean)"""
+    return [c for c in ctx.tlc_family("FamSyn", constants={"Tier": '"%s"' % ctx.tier}) if c["id"].startswith("syn/%s/" % prop)]
